@@ -67,6 +67,17 @@ static inline int cmp_values(int type, const std::string& a, const std::string& 
         default: { size_t m = std::min(a.size(), b.size()); int c = memcmp(a.data(), b.data(), m); if (c) return c < 0 ? -1 : 1; return a.size() < b.size() ? -1 : a.size() > b.size(); }
     }
 }
+// comparison in the column's order (see Col::order)
+static inline int cmp_ordered(const Col& c, const std::string& a, const std::string& b) {
+    if (c.order == 1 && c.type == T_I32) { uint32_t x, y; memcpy(&x, a.data(), 4); memcpy(&y, b.data(), 4); return x < y ? -1 : x > y; }
+    if (c.order == 1 && c.type == T_I64) { uint64_t x, y; memcpy(&x, a.data(), 8); memcpy(&y, b.data(), 8); return x < y ? -1 : x > y; }
+    if (c.order == 2 && !a.empty() && a.size() == b.size()) {
+        int sa = (int8_t)a[0], sb = (int8_t)b[0];
+        if (sa != sb) return sa < sb ? -1 : 1;
+        int k = memcmp(a.data() + 1, b.data() + 1, a.size() - 1); return k < 0 ? -1 : k > 0;
+    }
+    return cmp_values(c.type, a, b);
+}
 static inline bool is_nan_value(int type, const std::string& v) {
     if (type == T_F32) { float x; memcpy(&x, v.data(), 4); return x != x; }
     if (type == T_F64) { double x; memcpy(&x, v.data(), 8); return x != x; }
@@ -75,13 +86,15 @@ static inline bool is_nan_value(int type, const std::string& v) {
 // true bounds over a range of values; false when none can be stated (no values, NaN present, INT96)
 // nan_policy 0: no min/max at all when a NaN is present (what parquet-mr does); 1: min/max over the non-NaN values
 // (what the format text asks for: "NaN values should not be written to min/max")
-static inline bool min_max(int type, const std::vector<std::string>& vals, size_t from, size_t to, std::string* mn, std::string* mx, int nan_policy = 0) {
+static inline bool min_max(int type, const std::vector<std::string>& vals, size_t from, size_t to, std::string* mn, std::string* mx, int nan_policy = 0, const Col* col = nullptr) {
+    if (col && col->order == 3) return false;
     if (type == T_I96 || from >= to) return false;
     bool have = false;
     for (size_t i = from; i < to; i++) {
         if (is_nan_value(type, vals[i])) { if (nan_policy == 0) return false; continue; }
         if (!have) { *mn = *mx = vals[i]; have = true; continue; }
-        if (cmp_values(type, vals[i], *mn) < 0) *mn = vals[i]; if (cmp_values(type, vals[i], *mx) > 0) *mx = vals[i];
+        if ((col ? cmp_ordered(*col, vals[i], *mn) : cmp_values(type, vals[i], *mn)) < 0) *mn = vals[i];
+        if ((col ? cmp_ordered(*col, vals[i], *mx) : cmp_values(type, vals[i], *mx)) > 0) *mx = vals[i];
     }
     if (!have) return false;
     // -0.0 / +0.0: bounds must cover both signs
@@ -303,7 +316,7 @@ static inline Written write_file(const Table& t, const Layout& lay) {
                     int lvl_tag = legacy_bitpacked ? 4 : 3;
                     H.add(1, TV::I32(0));
                     TV DH = TV::Struct(); DH.add(1, TV::I32((int64_t)pe)); DH.add(2, TV::I32(enc)); DH.add(3, TV::I32(lvl_tag)); DH.add(4, TV::I32(lvl_tag));
-                    if (L.page_stats) { std::string mn, mx; bool mm = min_max(col.type, ch.vals, v0, v1, &mn, &mx); if (mm && mn.size() + mx.size() > 1200) mm = false; DH.add(5, stats_struct(L.chunk_stats ? L.chunk_stats : 1, mm, mn, mx, (int64_t)(pe - nn))); }
+                    if (L.page_stats) { std::string mn, mx; bool mm = min_max(col.type, ch.vals, v0, v1, &mn, &mx, 0, &col); if (mm && mn.size() + mx.size() > 1200) mm = false; DH.add(5, stats_struct(col.order ? 1 : L.chunk_stats ? L.chunk_stats : 1, mm, mn, mx, (int64_t)(pe - nn))); }      // the deprecated min/max fields are defined for the signed order only
                     if (lay.junk_fields && r.below(4) == 0) add_junk(DH, r);
                     H.add(5, DH);
                     if (lay.junk_fields && r.below(4) == 0) add_junk(H, r);
@@ -313,7 +326,7 @@ static inline Written write_file(const Table& t, const Layout& lay) {
                 e0 = e1; v0 = v1; pageno++;
             }
             co.end = o.size();
-            co.has_minmax = min_max(col.type, ch.vals, 0, ch.vals.size(), &co.mn, &co.mx, L.nan_policy);
+            co.has_minmax = min_max(col.type, ch.vals, 0, ch.vals.size(), &co.mn, &co.mx, L.nan_policy, &col);
             co.nulls = (int64_t)(ch.def.size() - ch.vals.size());
             // column chunk metadata
             TV M = TV::Struct();
@@ -328,7 +341,7 @@ static inline Written write_file(const Table& t, const Layout& lay) {
             // without dictionary_page_offset the chunk is located by data_page_offset, which then points at its first page (the dictionary page)
             M.add(9, TV::I64((int64_t)((use_dict && !L.dict_offset_present) ? co.start : co.data_page_offset)));
             if (use_dict && L.dict_offset_present) M.add(11, TV::I64((int64_t)co.start));
-            if (L.chunk_stats) M.add(12, stats_struct(L.chunk_stats, co.has_minmax, co.mn, co.mx, co.nulls));
+            if (L.chunk_stats) M.add(12, stats_struct(col.order ? 1 : L.chunk_stats, co.has_minmax, co.mn, co.mx, co.nulls));
             if (lay.junk_fields && r.below(3) == 0) add_junk(M, r);
             TV CC = TV::Struct();
             CC.add(2, TV::I64(L.file_offset_mode == 0 ? 0 : L.file_offset_mode == 1 ? (int64_t)co.start : (int64_t)co.end));
